@@ -351,7 +351,7 @@ func init() {
 	fw.Register(&fw.Property{
 		ID:          "C20",
 		Level:       "exploration",
-		Rule:        "seeded Add/Flush/reopen programs over a small hash universe (few first bytes incl. 0x00/0xFF, few tails) x batch sizes x file/buffer backing x hashes passed as separate slices or as slices carved from one buffer (which must come back unmodified); after every flush and reopen Has is compared with a Go map for EVERY hash of the universe and the raw file is checked for sorted entries and a consistent fan-out; distinct_nontrivial = distinct (universe,batch,backing,members,seed) programs with >=2 members and >=1 flush",
+		Rule:        "seeded Add/Flush/reopen programs over a small hash universe (few first bytes incl. 0x00/0xFF, few tails) x batch sizes (and bulk programs with hundreds of pending hashes of one first byte) x file/buffer backing x hashes passed as separate slices or as slices carved from one buffer (which must come back unmodified); after every flush and reopen Has is compared with a Go map for EVERY hash of the universe and the raw file is checked for sorted entries and a consistent fan-out; distinct_nontrivial = distinct (universe,batch,backing,members,seed) programs with >=2 members and >=1 flush",
 		Assumptions: []string{"callers never modify a slice after handing it to Add (fresh slices as RowCollector passes them, or read-only slices of one buffer)", "Len() equal to the model size is not demanded"},
 		Gen: func(tier string, seed int64) []fw.Case {
 			l := fw.NewCaseList("C20", tier, seed)
